@@ -3,7 +3,8 @@
    degree p, index j on the knot sequence t; the code's sequence is [knot opsR a dx p] with
    dx = (b - a)/n_segments, so that t_p = a (domain_min) and t_{n_segments+p} = b (domain_max). *)
 From Coq Require Import List Reals QArith.
-From FDAV Require Import Base.Num Base.Vec Model.Basis Model.Poly Lemmas.Vec Lemmas.Basis Lemmas.Legendre.
+From Coquelicot Require Import Coquelicot.
+From FDAV Require Import Base.Num Base.Vec Model.Basis Model.Poly Lemmas.Vec Lemmas.Basis Lemmas.Legendre Lemmas.Ortho.
 Import ListNotations.
 Local Open Scope R_scope.
 
@@ -70,8 +71,38 @@ Print Assumptions C18_legendre_norm_upto15.
 Theorem C18_legendre_at_one : forall k, legendre opsR k 1 = 1.
 Proof. exact legendre_at_one. Qed.
 Print Assumptions C18_legendre_at_one.
-(* C18_fourier_wiener_orthonormal_partial: orthonormality of the Fourier functions on the grid's
-   interval and of the Wiener functions on [0,1] is NOT proved here; monitored by quadrature. *)
+(* Wiener functions sqrt 2 sin((k - 1/2) pi t), k >= 1, are orthonormal on [0,1]; the Fourier functions
+   (constant 1/sqrt L, sqrt(2/L) cos(m x'), sqrt(2/L) sin(m x') with x' = 2 pi (t - a)/L - pi, L = b - a)
+   are orthonormal on [a, b] = the interval spanned by the grid — Riemann integrals (Coquelicot is_RInt),
+   explicit antiderivatives.  (The correspondence run checks that the code's functions are these.) *)
+Theorem C18_wiener_orthogonal : forall j k, (1 <= j)%nat -> (1 <= k)%nat -> j <> k ->
+  is_RInt (fun t => wiener j t * wiener k t) 0 1 0.
+Proof. exact wiener_orthogonal. Qed.
+Print Assumptions C18_wiener_orthogonal.
+Theorem C18_wiener_unit_norm : forall k, (1 <= k)%nat -> is_RInt (fun t => wiener k t * wiener k t) 0 1 1.
+Proof. exact wiener_unit_norm. Qed.
+Print Assumptions C18_wiener_unit_norm.
+Theorem C18_fourier_const_norm : forall a b, a < b -> is_RInt (fun t => f_const a b t * f_const a b t) a b 1.
+Proof. exact fourier_const_norm. Qed.
+Print Assumptions C18_fourier_const_norm.
+Theorem C18_fourier_const_cos : forall a b, a < b -> forall m, (1 <= m)%nat ->
+  is_RInt (fun t => f_const a b t * f_cos a b m t) a b 0.
+Proof. exact fourier_const_cos. Qed.
+Print Assumptions C18_fourier_const_cos.
+Theorem C18_fourier_const_sin : forall a b, a < b -> forall m, is_RInt (fun t => f_const a b t * f_sin a b m t) a b 0.
+Proof. exact fourier_const_sin. Qed.
+Print Assumptions C18_fourier_const_sin.
+Theorem C18_fourier_cos_cos : forall a b, a < b -> forall m n, (1 <= m)%nat -> (1 <= n)%nat ->
+  is_RInt (fun t => f_cos a b m t * f_cos a b n t) a b (if Nat.eq_dec m n then 1 else 0).
+Proof. exact fourier_cos_cos. Qed.
+Print Assumptions C18_fourier_cos_cos.
+Theorem C18_fourier_sin_sin : forall a b, a < b -> forall m n, (1 <= m)%nat -> (1 <= n)%nat ->
+  is_RInt (fun t => f_sin a b m t * f_sin a b n t) a b (if Nat.eq_dec m n then 1 else 0).
+Proof. exact fourier_sin_sin. Qed.
+Print Assumptions C18_fourier_sin_sin.
+Theorem C18_fourier_sin_cos : forall a b, a < b -> forall m n, is_RInt (fun t => f_sin a b m t * f_cos a b n t) a b 0.
+Proof. exact fourier_sin_cos. Qed.
+Print Assumptions C18_fourier_sin_cos.
 
 (* dropping the intercept removes exactly the first function *)
 Theorem C18_drop_intercept : forall (B : list (list R)) k, nth k (drop_intercept B) [] = nth (S k) B [].
